@@ -182,6 +182,10 @@ func (this *WalletData) reencrypt(passwords [][]byte, param *keypair.ScryptParam
 	if len(passwords) != len(this.Accounts) {
 		return errors.New("not enough passwords for the accounts")
 	}
+	if param == nil {
+		// default parameters
+		param = keypair.GetScryptParameters()
+	}
 	keys := make([]*keypair.ProtectedKey, len(this.Accounts))
 	for i, v := range this.Accounts {
 		prot, err := keypair.ReencryptPrivateKey(&v.ProtectedKey, passwords[i], passwords[i], this.Scrypt, param)
